@@ -968,7 +968,8 @@ int cif_container_get_all_loops(cif_container_tp *container, cif_loop_tp ***loop
             FAILURE_HANDLER(soft):
             while (head != NULL) {
                 next_loop = head->next;
-                free(head);
+                /* releases the loop's category, too; the loop is the first member of its list element */
+                cif_loop_free(&(head->loop));
                 head = next_loop;
             }
         } else {
